@@ -131,6 +131,19 @@ func (ex *Exec) effectOfContract(fc *FuncContract, fn *ssa.Function, cc *ssa.Cal
 		switch {
 		case m == "everything":
 			e.all = true
+		case strings.HasPrefix(m, "fieldmem("):
+			for k := range ex.fieldRegion(ex.v.pkgOf(fc.Pkg), m) {
+				e.keys = append(e.keys, k)
+			}
+		case strings.HasPrefix(m, "mapsof("):
+			t := ex.v.lookupType(ex.v.pkgOf(fc.Pkg), strings.TrimSuffix(strings.TrimPrefix(m, "mapsof("), ")"))
+			if t == nil {
+				e.all = true
+			} else {
+				for _, mt := range mapsOf(t, map[string]bool{}) {
+					e.keys = append(e.keys, ex.mapKeysOf(mt)...)
+				}
+			}
 		case strings.HasPrefix(m, "typemem(") || strings.HasPrefix(m, "map("):
 			// resolved against the callee's package
 			pk := ex.v.pkgOf(fc.Pkg)
@@ -472,9 +485,15 @@ func (ex *Exec) applyContract(fc *FuncContract, fn *ssa.Function, cc *ssa.CallCo
 	if !fc.HasMod {
 		c.havocAll(ex.cur)
 	} else {
+		var regs []string
 		for _, m := range fc.Modifies {
+			if strings.HasPrefix(m, "fieldmem(") {
+				regs = append(regs, m)
+				continue
+			}
 			ex.havocLvalue(pre, m, calleeDisp)
 		}
+		ex.havocFieldRegions(pre.pkg, regs, calleeDisp)
 	}
 	// results
 	post := &Env{c: c, v: ex.v, vars: map[string]Val{}, mem: ex.cur, old: pre, pkg: pre.pkg}
@@ -556,6 +575,114 @@ func (ex *Exec) bindParams(env *Env, fn *ssa.Function, cc *ssa.CallCommon, recv 
 	}
 }
 
+// fieldRegion resolves fieldmem(T.f): memory keys and the address tags of
+// the cells of field f in any object of struct type T.
+func (ex *Exec) fieldRegion(pkg *types.Package, m string) map[string][]int {
+	c := ex.c
+	arg := strings.TrimSuffix(strings.TrimPrefix(m, "fieldmem("), ")")
+	k := strings.LastIndex(arg, ".")
+	if k < 0 {
+		unsup("bad %s", m)
+	}
+	t := ex.v.lookupType(pkg, arg[:k])
+	if t == nil {
+		unsup("unknown type in %s", m)
+	}
+	st, ok := t.Underlying().(*types.Struct)
+	if !ok {
+		unsup("%s: not a struct", m)
+	}
+	out := map[string][]int{}
+	for i := 0; i < st.NumFields(); i++ {
+		if st.Field(i).Name() != arg[k+1:] {
+			continue
+		}
+		for _, cl := range c.cells(c.fieldAddr("0", t, i), st.Field(i).Type()) {
+			head := cl.addr[1:]
+			if j := strings.Index(head, "| "); j >= 0 {
+				head = head[:j+1]
+			}
+			id := c.faIDs[head]
+			for li, s := range c.leafSorts(cl.t) {
+				c.memGet(ex.cur, cl.t, li, s)
+				key := c.memName(cl.t, li)
+				out[key] = append(out[key], id)
+			}
+		}
+		return out
+	}
+	unsup("%s: no such field", m)
+	return nil
+}
+
+func (ex *Exec) regionsOf(pkg *types.Package, regs []string) map[string][]int {
+	all := map[string][]int{}
+	for _, m := range regs {
+		for k, ids := range ex.fieldRegion(pkg, m) {
+			all[k] = append(all[k], ids...)
+		}
+	}
+	return all
+}
+
+// havocFieldRegions: a fresh array that agrees with the old one outside the
+// region (addresses whose field tag is one of the listed fields).
+func (ex *Exec) havocFieldRegions(pkg *types.Package, regs []string, who string) {
+	if len(regs) == 0 {
+		return
+	}
+	c := ex.c
+	all := ex.regionsOf(pkg, regs)
+	var ks []string
+	for k := range all {
+		ks = append(ks, k)
+	}
+	sort.Strings(ks)
+	for _, k := range ks {
+		old := c.memRaw(ex.cur, k)
+		c.havocKey(ex.cur, k)
+		nw := ex.cur.m[k]
+		a := c.fresh("a")
+		var in []Term
+		for _, id := range all[k] {
+			in = append(in, eq(app("ftag", a), fmt.Sprint(id)))
+		}
+		c.hasQ = true
+		c.assume(fmt.Sprintf("(forall ((%s Int)) (! %s :pattern ((select %s %s))))", a,
+			or(append(in, eq(app("select", nw, a), app("select", old, a)))...), nw, a))
+	}
+}
+
+// mapsOf lists the map types of the fields of struct type t (recursively).
+func mapsOf(t types.Type, seen map[string]bool) []*types.Map {
+	var out []*types.Map
+	switch u := t.Underlying().(type) {
+	case *types.Struct:
+		if seen[typeKey(t)] {
+			return nil
+		}
+		seen[typeKey(t)] = true
+		for i := 0; i < u.NumFields(); i++ {
+			out = append(out, mapsOf(u.Field(i).Type(), seen)...)
+		}
+	case *types.Map:
+		out = append(out, u)
+	}
+	return out
+}
+
+func (ex *Exec) mapKeysOf(mt *types.Map) []string {
+	ex.touchMap(mt)
+	var ks []string
+	for k := range memSorts {
+		if strings.HasPrefix(k, "Mmap "+typeKey(mt)+" ") {
+			ks = append(ks, k)
+		}
+	}
+	sort.Strings(ks)
+	return ks
+}
+
 // havocLvalue forgets the cells named by one modifies entry (evaluated in the
 // pre-state of the call).
 func (ex *Exec) havocLvalue(pre *Env, m string, who string) {
@@ -573,6 +700,17 @@ func (ex *Exec) havocLvalue(pre *Env, m string, who string) {
 			for i, s := range c.leafSorts(cl.t) {
 				c.memGet(ex.cur, cl.t, i, s)
 				c.havocKey(ex.cur, c.memName(cl.t, i))
+			}
+		}
+		return
+	case strings.HasPrefix(m, "mapsof("):
+		t := ex.v.lookupType(pre.pkg, strings.TrimSuffix(strings.TrimPrefix(m, "mapsof("), ")"))
+		if t == nil {
+			unsup("contract %s: unknown type in %s", who, m)
+		}
+		for _, mt := range mapsOf(t, map[string]bool{}) {
+			for _, k := range ex.mapKeysOf(mt) {
+				c.havocKey(ex.cur, k)
 			}
 		}
 		return
